@@ -26,6 +26,8 @@ def jobs(tier):
             # hand-overs: backlog, partial drain, more posts (the sequence number alone orders the queue)
             {"name": "backlog-same-type", "kind": "A", "length": 8 if tier == "quick" else 10, "ops": ["post_s0_d0", "next"],
              "one_type": True},
+            # two computations that both register late and write to each other before being registered
+            {"name": "two-late-computations", "kind": "C", "length": 6 if tier == "quick" else 7},
             {"name": "agent-clean-shutdown", "kind": "B", "posts": 3 if tier == "quick" else 4}]
 
 
@@ -48,6 +50,8 @@ def run(eng, p):
     comm_mod.sleep = lambda *_: None
     if p["kind"] == "A":
         return run_messaging(eng, p)
+    if p["kind"] == "C":
+        return run_two_late(eng, p)
     return run_agent(eng, p)
 
 
@@ -118,6 +122,54 @@ def run_messaging(eng, p):
         eng.notes["outcome"] = {"history": hist, "delivered": delivered}
         eng.prove(not queue, "message(s) posted before shutdown never handed over", detail=str((hist, [e[:3] for e in queue])))
         eng.prove(len(set(delivered)) == len(delivered), "a message was handed over twice", detail=str((hist, delivered)))
+    except Exception as e:
+        eng.notes["outcome"] = {"history": hist, "exc": str(e)}
+        eng.fail("exception %s: %s" % (type(e).__name__, e), detail=traceback.format_exc(limit=-4))
+
+
+def run_two_late(eng, p):
+    """Computations A and B both register late; messages A->B and B->A posted before (and after) their registration must all
+    be handed over exactly once, FIFO per (sender, destination), once the destination is registered."""
+    from pydcop.infrastructure.communication import InProcessCommunicationLayer, Messaging
+    from pydcop.infrastructure.discovery import Discovery
+    from pydcop.infrastructure.computations import Message
+    comm = InProcessCommunicationLayer()
+    comm.discovery = Discovery("a1", "addr1")
+    m = Messaging("a1", comm)
+    registered = set()
+    posted, delivered, hist = [], [], []
+    n = eng.choose(p["length"], "length") + 1
+    ops = ["post_A_B", "post_B_A", "register_A", "register_B", "next"]
+    try:
+        for step in range(n + 1):
+            final = step == n
+            op = "final" if final else ops[eng.choose(len(ops), "op_%d" % step)]
+            hist.append(op)
+            if op.startswith("post"):
+                _, s, d = op.split("_")
+                posted.append((s, d, len(posted)))
+                m.post_msg(s, d, Message("tok", len(posted) - 1), 20)
+            elif op.startswith("register") or final:
+                for c in ([op[-1]] if not final else ["A", "B"]):
+                    if c not in registered:
+                        registered.add(c)
+                        m.discovery.register_computation(c, "a1")
+            if op in ("next", "final"):
+                while True:
+                    full, _t = m.next_msg(0)
+                    if full is None:
+                        break
+                    src, dst, msg, typ = full
+                    delivered.append((src, dst, msg.content))
+                    if op == "next":
+                        break
+        eng.notes["outcome"] = {"history": hist, "delivered": delivered}
+        eng.prove(sorted(delivered) == sorted(posted), "a message posted to a late computation was lost or handed over twice",
+                  detail=str((hist, posted, delivered)))
+        for pair in (("A", "B"), ("B", "A")):
+            seq = [i for s, d, i in delivered if (s, d) == pair]
+            eng.prove(seq == sorted(seq), "messages of one sender to one late destination handed over out of order",
+                      detail=str((hist, delivered)))
     except Exception as e:
         eng.notes["outcome"] = {"history": hist, "exc": str(e)}
         eng.fail("exception %s: %s" % (type(e).__name__, e), detail=traceback.format_exc(limit=-4))
